@@ -111,4 +111,50 @@ structure QueueWorld (ω : Type) where
   /-- `ptr->AsyncWantSend(buff->sock->fd)` -/
   driverAsyncWantSend : M ω Unit
 
+/-- what the TLS glue `SocketTlsImpl` works on: its own fields, libssl, the socket layer below (plus the clock and
+`SocketError()` of `World`) -/
+structure TlsWorld (ω : Type) extends World ω where
+  get_lastError : M ω Int
+  set_lastError : Int → M ω Unit
+  get_remainingTime : M ω Int
+  set_remainingTime : Int → M ω Unit
+  get_isReadable : M ω Bool
+  set_isReadable : Bool → M ω Unit
+  get_isWritable : M ω Bool
+  set_isWritable : Bool → M ω Unit
+  get_driverSendSuppressed : M ω Bool
+  set_driverSendSuppressed : Bool → M ω Unit
+  /-- `pendingSend = std::string_view(data + off, len)` (`{}` = 0 0) -/
+  set_pendingSend : Int → Int → M ω Unit
+  /-- `if(pendingError)` -/
+  pendingErrorSet : M ω Bool
+  /-- `std::rethrow_exception(std::exchange(pendingError, nullptr))`: never returns normally -/
+  rethrowPending : M ω Unit
+  /-- `WaitReadable(fd, t)` / `WaitWritable(fd, t)` (t in ms) -/
+  sockWaitReadable : Int → M ω Bool
+  sockWaitWritable : Int → M ω Bool
+  /-- `ReceiveNow(fd, data, size)` -/
+  sockReceiveNow : Int → M ω Int
+  /-- `Receive(fd, data, size, timeout)` -/
+  sockReceive : Int → Int → M ω (Option Int)
+  /-- `SendNow / SendAll / SendTry(fd, data + off, len)` -/
+  sockSendNow : Int → Int → M ω Int
+  sockSendAll : Int → Int → M ω Int
+  sockSendTry : Int → Int → M ω Int
+  /-- `SendSome(fd, data + off, len, deadline)` with the fields `now`, `deadline` of the caller's deadline object:
+  the result and the object's `now` afterwards (ns) -/
+  sockSendSome : Int → Int → Int → Int → M ω (Int × Int)
+  /-- `SSL_read(ssl, data, size)` -/
+  sslRead : Int → M ω Int
+  /-- `SSL_write_ex(ssl, data + off, len, &written)`: its result and `written` -/
+  sslWriteEx : Int → Int → M ω (Int × Int)
+  /-- `SSL_get_error(ssl, res)` -/
+  sslGetError : Int → M ω Int
+  /-- `SSL_is_init_finished(ssl)` -/
+  sslIsInitFinished : M ω Int
+  /-- `SSL_pending(ssl)` -/
+  sslPending : M ω Int
+  /-- `SslError(code)`: the `std::error_code` of an OpenSSL error -/
+  sslError : Int → M ω Int
+
 end SockModel.Gen
